@@ -70,6 +70,7 @@ type Out struct {
 	// C10 (metricsprog.go, accesses.go)
 	MetricsProgs  []*MProg            `json:"metrics_progs"`
 	MetricsFields map[string][]string `json:"metrics_fields"`
+	MetricsPublic map[string]map[string]string `json:"metrics_public"`
 	Accesses      []AccessSite        `json:"accesses"`
 	Cells         []CellInfo          `json:"cells"`
 	AccessNotes   []string            `json:"access_notes"`
